@@ -1,7 +1,7 @@
 """C05 - control flow, scoping and closures: scope table, exit algebra, declaration/assignment layering, short circuit."""
 import re
 from .core import (try_body_scope, scope_constructors, builds_error, CheckError, find_match, arm_region, pat_str, strip_ref, origins, only_when, pat_paths,
-                   Registry, op_local)
+                   Registry, op_local, bool_switches)
 
 META = {
     'level': 'other',
@@ -501,5 +501,42 @@ def run(F, rep, tier):
             else:
                 rep.ok('R5.11', 'keyed yield: evaluations before the lookup', '%d, all of them the key' % len(evs))
     rep.floor('R5.11', 'keyed-yield accumulator lookups', n11, 1)
+    # ---------------- R5.12
+    rep.rule('R5.12', 'a statement list that ends with `;` evaluates to null: Parser::expression records the trailing semicolon in the flag of '
+             'Expr::Sequence(stmts, flag), and the shortcut that returns a single statement unwrapped (Vec::remove / pop) is taken only '
+             'when that same flag is false - otherwise `(e;)` yields the value of e')
+    pe = 'core::Parser::expression'
+    if not F.has_fn(pe):
+        rep.error('R5.12', pe + ' missing')
+    else:
+        pb = F.body(pe)
+        flags = set()
+        for bb, s_ in pb.aggregates(pb.reach):
+            if s_[2][2] == 'core::Expr' and s_[2][4] == 'Sequence' and len(s_[2][5]) == 2:
+                op = s_[2][5][1]
+                for _ in range(6):
+                    if op[0] not in ('c', 'm') or len(op[1]) != 1:
+                        break
+                    ds = pb.defs().get(op[1][0], [])
+                    if len(ds) == 1 and ds[0][2] == 'a' and ds[0][3][2][0] == 'use':
+                        op = ds[0][3][2][1]
+                    else:
+                        flags.add(op[1][0])
+                        break
+        unwraps = {c.bb for c in pb.calls if re.search(r'Vec::<.*>::(remove|swap_remove|pop)$', c.target)}
+        if not flags:
+            rep.error('R5.12', 'Parser::expression builds no Expr::Sequence with a flag local')
+        elif not unwraps:
+            rep.ok('R5.12', pe, 'no unwrapping shortcut')
+        else:
+            sws = [sw for fl in flags for sw in bool_switches(pb, fl)]
+            bad = [sw for sw in sws if unwraps & pb.reachable_from(sw[1], avoid={sw[0]})]
+            if not sws:
+                rep.viol('R5.12', pe + '|unwrap-ignores-semicolon', 'the single-statement shortcut does not depend on the trailing-semicolon flag: `(e;)` evaluates to e instead of null', pb.loc(min(unwraps)))
+            elif bad:
+                rep.viol('R5.12', pe + '|unwrap-with-semicolon', 'the single-statement shortcut is reachable when the trailing-semicolon flag is set', pb.loc(min(unwraps)))
+            else:
+                rep.ok('R5.12', pe, 'unwrapping only when the Sequence flag is false (%d switch(es))' % len(sws))
+
     rep.undecided += ['equivalence with a reference interpreter over all programs', 'yield/into folding values', 'eval of computed strings']
     return META
